@@ -22,7 +22,12 @@ RT == {[k |-> "rt", type |-> "P1", value |-> v] : v \in Rec1} \cup {[k |-> "rt",
       \cup {[k |-> "rt", type |-> "P3", value |-> v] : v \in Rec3} \cup {[k |-> "rt", type |-> "P4", value |-> v] : v \in Rec4}
 Rec6 == [A : {<<>>, x}, Z : {<<122>>, <<122, 122>>}]        \* (a struct whose fields are all empty marshals to no paragraph at all)
 RT6 == {[k |-> "rt", type |-> "P6", value |-> v] : v \in Rec6}
-Desc == {[k |-> "desc", type |-> t] : t \in {"P1", "P2", "P3", "P4", "P5", "P6"}}
+\* P7: other tag combinations of lists, and strings that begin with white space (" x", "  a\nb", "\tq", " ")
+alpha == <<97, 108, 112, 104, 97>>  beta == <<98, 101, 116, 97>>  gamma == <<103, 97, 109, 109, 97>>
+Rec7 == [CS : {<<>>, <<alpha>>, <<alpha, beta, gamma>>}, ML : {<<>>, <<<<112>>>>, <<<<112>>, <<113>>, <<114>>>>}, CN : {<<>>, <<x>>, <<x, <<121>>>>},
+         S : {<<>>, x, <<SP, 120>>, <<SP, SP, 97, LF, 98>>, <<TAB, 113>>, <<SP, SP, 105, LF, SP, 106>>}]
+RT7 == {[k |-> "rt", type |-> "P7", value |-> v] : v \in {r \in Rec7 : r.CS # <<>> \/ r.ML # <<>> \/ r.CN # <<>> \/ r.S # <<>>}}     \* (all empty: no paragraph at all)
+Desc == {[k |-> "desc", type |-> t] : t \in {"P1", "P2", "P3", "P4", "P5", "P6", "P7"}}
 
 \* pass-through: known fields Name, Count, Tags and unknown fields X-A (single line), X-B (multi-line), X-C at every interleaving
 kName == <<78, 97, 109, 101, 58, 32, 110>>                  \* "Name: n"
@@ -63,5 +68,5 @@ RTS == {[k |-> "rt_slice", type |-> "P1", values |-> <<Full1, v, Full1>>] : v \i
        \cup {[k |-> "rt_slice", type |-> "P2", values |-> <<Full2, v>>] : v \in Rec2}
        \cup {[k |-> "rt_slice", type |-> "P3", values |-> <<Full3, v>>] : v \in {w \in Rec3 : w.ReqL # <<>>}}
        \cup {[k |-> "rt_slice", type |-> "P4", values |-> <<Full4, v>>] : v \in Rec4}
-ASSUME Emit(SetToSeq(Desc) \o SetToSeq(RT \cup Pass \cup Missing) \o SetToSeq(RT2) \o SetToSeq(RT6) \o SetToSeq(RTS))
+ASSUME Emit(SetToSeq(Desc) \o SetToSeq(RT \cup Pass \cup Missing) \o SetToSeq(RT2) \o SetToSeq(RT6) \o SetToSeq(RT7) \o SetToSeq(RTS))
 =============================================================================
